@@ -23,6 +23,7 @@ const (
 	slicePostings
 	sliceThes
 	sliceVec
+	sliceDec // C09: every merge output is decoded by the independent v16 reader
 )
 
 // vecAfterPlan is set by the vectors flavour: engine-monitor check at the end of a plan.
@@ -122,6 +123,9 @@ func sameFields(ms []*model.Seg) bool {
 
 func mergeWorkload(c *Ctx, slice int) {
 	n := c.N(1600, 20000)
+	if slice == sliceDec {
+		n = c.N(660, 6600)
+	}
 	for i := 0; i < n; i++ {
 		if !c.Mine(i) {
 			continue
@@ -249,7 +253,7 @@ func runMergePlan(c *Ctx, i int, rng *rand.Rand, class string, slice int) {
 			k = pool
 		}
 		perm := rng.Perm(pool)
-		if slice == sliceVec {
+		if vec {
 			// vector ids are unique per (vector, document) and survive merges: a
 			// segment is never merged together with a segment derived from it, so
 			// in vector plans every segment is an input at most once
@@ -541,6 +545,9 @@ func runMergePlan(c *Ctx, i int, rng *rand.Rand, class string, slice int) {
 			}
 		case sliceVec:
 			guard(c.R, tag+" vectors", func() { checkVectors(c, tag, o, mm, rng) })
+		case sliceDec:
+			guard(c.R, tag+" decode", func() { decodeAndCompare(c, tag, out, mm, st.mode) })
+			c.R.Inc("files_from_merge_plans", 1)
 		}
 		if c.R.Failed() {
 			if dd := os.Getenv("VERIF_DEBUG_DUMP"); dd != "" {
